@@ -114,17 +114,25 @@ def J.toPoint (q : J) : Point :=
   let zi2 := fsqr zi
   .aff (fmul q.x zi2) (fmul q.y (fmul zi2 zi))
 
+/-- field ops for operands already reduced mod p (no division) -/
+@[inline] def radd (a b : Nat) : Nat := let s := a + b; if s ≥ p then s - p else s
+@[inline] def rsub (a b : Nat) : Nat := if a ≥ b then a - b else a + p - b
+
 def J.double (q : J) : J :=
   if q.z = 0 || q.y = 0 then J.inf else
   let a := fsqr q.x
   let b := fsqr q.y
   let c := fsqr b
-  let d := fmul 2 (fsub (fsub (fsqr (fadd q.x b)) a) c)
-  let e := fmul 3 a
+  let t := rsub (rsub (fsqr (radd q.x b)) a) c
+  let d := radd t t
+  let e := radd (radd a a) a
   let f := fsqr e
-  let x3 := fsub f (fmul 2 d)
-  let y3 := fsub (fmul e (fsub d x3)) (fmul 8 c)
-  ⟨x3, y3, fmul 2 (fmul q.y q.z)⟩
+  let x3 := rsub f (radd d d)
+  let c2 := radd c c
+  let c4 := radd c2 c2
+  let y3 := rsub (fmul e (rsub d x3)) (radd c4 c4)
+  let yz := fmul q.y q.z
+  ⟨x3, y3, radd yz yz⟩
 
 /-- mixed addition: Jacobian + affine (x2, y2 reduced). -/
 def J.addAff (q : J) (x2 y2 : Nat) : J :=
@@ -132,14 +140,14 @@ def J.addAff (q : J) (x2 y2 : Nat) : J :=
   let z2 := fsqr q.z
   let u2 := fmul x2 z2
   let s2 := fmul y2 (fmul z2 q.z)
-  let h := fsub u2 q.x
-  let r := fsub s2 q.y
+  let h := rsub u2 q.x
+  let r := rsub s2 q.y
   if h = 0 then (if r = 0 then q.double else J.inf) else
   let h2 := fsqr h
   let h3 := fmul h2 h
   let v := fmul q.x h2
-  let x3 := fsub (fsub (fsqr r) h3) (fmul 2 v)
-  let y3 := fsub (fmul r (fsub v x3)) (fmul q.y h3)
+  let x3 := rsub (rsub (fsqr r) h3) (radd v v)
+  let y3 := rsub (fmul r (rsub v x3)) (fmul q.y h3)
   ⟨x3, y3, fmul q.z h⟩
 
 /-- MSB-first double-and-add over bit positions `i-1 … 0`. -/
@@ -154,7 +162,27 @@ def mul (k : Nat) : Point → Point
   | .inf => .inf
   | .aff x y => (jmulAux k (x % p) (y % p) (k.log2 + 1) J.inf).toPoint
 
-def mulG (k : Nat) : Point := mul k G
+/-- the affine points 2^i·G, i = 0 … 255 (computed once with the reference `double`) -/
+def gTableAux : Nat → Point → List (Nat × Nat) → List (Nat × Nat)
+  | 0, _, acc => acc.reverse
+  | i + 1, q, acc =>
+    match q with
+    | .inf => acc.reverse
+    | .aff x y => gTableAux i (double q) ((x, y) :: acc)
+
+def gTable : Array (Nat × Nat) := (gTableAux 256 G []).toArray
+
+def mulGAux (k : Nat) : Nat → J → J
+  | 0, acc => acc
+  | i + 1, acc =>
+    mulGAux k i (if k.testBit i then
+      (match gTable[i]? with
+       | some (x, y) => acc.addAff x y
+       | none => acc) else acc)
+
+/-- k·G for k < 2^256 by adding the tabulated 2^i·G (no doublings); falls back to `mul` for larger k. -/
+def mulG (k : Nat) : Point :=
+  if k < 2 ^ 256 then (mulGAux k 256 J.inf).toPoint else mul k G
 
 /-! ### x-only / compressed -/
 def Point.x? : Point → Option Nat
